@@ -110,6 +110,20 @@ func VerifC18Validate(section int) {
 		a.Enabled = verifrt.Bool("admin.enabled")
 		a.Port = verifrt.Int("admin.port")
 		ok = verifrt.And(ok, verifrt.Implies(a.Enabled, verifrt.And(a.Port >= 1, a.Port <= 65535)))
+		// access lists in every documented form (README: "single IPs (127.0.0.1) and CIDR notation"):
+		// none of them is a reason to refuse the file. (Malformed entries are don't-care here: the
+		// admin API fails closed on them at run time, C10.)
+		forms := []string{"", "127.0.0.1", "10.0.0.0/8", "::1", "2001:db8::/32", "::ffff:192.0.2.1"}
+		fa, fd := 1, 0
+		if !all {
+			fa, fd = verifrt.Choice("admin.ip_allow_list", len(forms)), verifrt.Choice("admin.ip_deny_list", len(forms))
+		}
+		if fa != 0 {
+			a.IPAllowList = []string{"192.168.1.0/24", forms[fa]}
+		}
+		if fd != 0 {
+			a.IPDenyList = []string{forms[fd]}
+		}
 	}
 	if all || section == 8 {
 		c.Logging.Level = verifPick("logging.level", []string{"", "debug", "info", "warn", "error", "verbose"})
